@@ -33,9 +33,90 @@ def run(chk):
     rule_candidates_once(chk)
     fft = chk.anchor("C16.anchor/find_function_type", f.fn("find_function_type", TY), "find_function_type")
     if fft:
-        rule_unique(chk, fft)
+        resolved = False
+        try:
+            resolved = rule_resolution_eval(chk, fft)
+        except Exception as e:
+            chk.note("overload resolution not evaluated: %r" % (e,))
+        if not resolved:
+            rule_unique(chk, fft)
+            rule_arity(chk, fft)
         rule_sym(chk, fft)
-        rule_arity(chk, fft)
+
+
+def rule_resolution_eval(chk, fft):
+    """find_function_type evaluated as a whole (find_overload_casts and the signature lookup are scripted) on every
+    ordered overload list of length 1..3 over nine candidate profiles for a two-argument call (casts fail / wrong
+    arity / default parameter / exact / promotion on either argument / expand / contract / conversion). The result must
+    be: Ok(the one candidate that is not numerically worse than any other and has the best vector-rank histogram),
+    the ambiguity error when several remain, the no-match error when none does - and the same whatever the order of
+    declaration. True when readable."""
+    import itertools
+    f = chk.facts
+    ORD = {r: i for i, r in enumerate(REF_ORDER)}
+    VORD = ["Contract", "Expand", "Exact"]
+
+    def conv(num, vec):
+        prim = I.Enum("Option", "None") if num == "Exact" else I.Enum("Option", "Some", {"0": I.Enum("PrimaryCast", None, {
+            "source": I.Enum("TypeId", None, {"0": 1}), "dest": I.Enum("TypeId", None, {"0": 2}), "rank": I.Enum("NumericRank", num)})})
+        S, V3 = I.Enum("NumericDimension", "Scalar"), I.Enum("NumericDimension", "Vector", {"0": 3})
+        dim = {"Exact": I.Enum("Option", "None"), "Expand": I.Enum("Option", "Some", {"0": I.Enum("DimensionCast", None, {"0": S, "1": V3})}),
+               "Contract": I.Enum("Option", "Some", {"0": I.Enum("DimensionCast", None, {"0": V3, "1": S})})}[vec]
+        return I.Enum("ImplicitConversion", None, {"0": I.Opaque("source"), "1": I.Enum("Option", "None"), "2": dim, "3": prim, "4": I.Enum("Option", "None")})
+    E = "Exact"
+    PROFILES = [
+        ("casts-fail", 2, 2, None), ("too-few-params", 1, 1, [(E, E), (E, E)]), ("too-many-required", 3, 3, [(E, E), (E, E)]),
+        ("exact", 2, 2, [(E, E), (E, E)]), ("promote-2nd", 2, 2, [(E, E), ("Promotion", E)]), ("promote-1st", 2, 2, [("Promotion", E), (E, E)]),
+        ("expand-1st", 2, 2, [(E, "Expand"), (E, E)]), ("contract-2nd", 2, 2, [(E, E), (E, "Contract")]), ("default-param", 3, 2, [(E, E), (E, E)]),
+    ]
+    n = 0
+    bad = []
+    for k in (1, 2, 3):
+        for combo in itertools.product(range(len(PROFILES)), repeat=k):
+            n += 1
+            profs = [PROFILES[i] for i in combo]
+            ext = {
+                "FunctionRegistry::get_function_signature": lambda a, profs=profs: I.Enum("FunctionSignature", None, {
+                    "param_types": [I.Opaque("param")] * profs[a[1].fields["0"]][1], "non_default_params": profs[a[1].fields["0"]][2], "template_params": []}),
+                "find_overload_casts": lambda a, profs=profs: (I.Enum("Result", "Err", {"0": ()}) if profs[a[0].fields["0"]][3] is None else
+                                                              I.Enum("Result", "Ok", {"0": (a[0], [conv(nu, ve) for nu, ve in profs[a[0].fields["0"]][3]])})),
+            }
+            ip = I.Interp(f, max_depth=8, extern=ext)
+            ip.max_loop = 64
+            overloads = [I.Enum("FunctionId", None, {"0": i}) for i in range(k)]
+            try:
+                r = ip.apply(fft, [overloads, I.Opaque("template args"), [I.Opaque("arg"), I.Opaque("arg")], I.Opaque("loc"),
+                                   I.Enum("Context", None, {"module": I.Enum("Module", None, {"function_registry": I.Opaque("functions")})})])
+            except I.Unknown as e:
+                if n == 1:
+                    return False
+                bad.append(([p[0] for p in profs], "evaluation stopped: %s" % str(e)[:80]))
+                continue
+            if isinstance(r, I.Enum) and r.variant == "Ok":
+                got = ("Ok", r.fields["0"][0].fields["0"])
+            elif isinstance(r, I.Enum) and r.variant == "Err":
+                e0 = r.fields["0"]
+                got = ("Err", e0.fields.get("3")) if isinstance(e0, I.Enum) and e0.variant == "FunctionArgumentTypeMismatch" else ("Err", repr(e0)[:40])
+            else:
+                got = repr(r)[:60]
+            cands = [(i, p[3]) for i, p in enumerate(profs) if p[3] is not None and p[2] <= 2 <= p[1]]
+            surv = [(i, c) for i, c in cands if all(all(ORD[c[a][0]] <= ORD[o[a][0]] for a in range(2)) for j, o in cands if j != i)]
+            if not surv:
+                want = ("Err", False)
+            else:
+                hist = {i: [sum(1 for x in c if x[1] == v) for v in VORD] for i, c in surv}
+                best = min(hist.values())
+                B = [i for i, c in surv if hist[i] == best]
+                want = ("Ok", B[0]) if len(B) == 1 else ("Err", True)
+            if got != want:
+                bad.append(([p[0] for p in profs], "gives %s, must be %s" % ((got,), (want,))))
+    ok = not bad
+    chk.ob("C16.resolve/model", ok, "%d ordered overload lists: the selected overload / ambiguity / no-match verdict equals the resolution rule" % n if ok else
+           "overload resolution is wrong for %d of %d overload lists, e.g. candidates %s: %s" % (len(bad), n, bad[0][0], bad[0][1]), where(fft), sample={"lists": n, "wrong": len(bad)})
+    for k_, txt in (("C16.unique/ok-only-when-single", "Ok only for a single survivor"), ("C16.unique/ambiguous-error", "several survivors -> ambiguity error"),
+                    ("C16.arity/min", "arity lower bound"), ("C16.arity/max", "arity upper bound"), ("C16.sym/tie-break", "vector-rank tie-break")):
+        chk.ob(k_, ok, "decided by the evaluated resolution (%s)" % txt if ok else "see C16.resolve/model", where(fft), trivial=True)
+    return True
 
 
 def rule_rank(chk, ip):
